@@ -32,18 +32,19 @@ class Tags:
     def __enter__(self):
         m = self.m
 
-        def taper(x, window="tukey", alpha=0.001):
-            self.calls.append(("taper", alpha))
+        def taper(x, *a, **kw):
+            self.calls.append(("taper", kw.get("alpha", a[1] if len(a) > 1 else None)))
             return np.asarray(x, dtype=float) + 1.0, 1.0
 
         def mkfilter(name):
-            def f(x, dt, *fc):
-                self.calls.append((name, float(dt)) + tuple(fc))
+            def f(x, *a, **kw):                      # positional or keyword call: (x, dt, fc…, order=…)
+                dt = kw.get("dt", a[0] if a else None)
+                self.calls.append((name, float(dt)))
                 return 2.0 * np.asarray(x, dtype=float) + dt
             return f
 
-        def smooth(x, window_len=11, window="rectangular", mode="same"):
-            self.calls.append(("smooth", window_len))
+        def smooth(x, *a, **kw):
+            self.calls.append(("smooth", kw.get("window_len", a[0] if a else None)))
             return np.asarray(x, dtype=float) ** 2
         for name, fn in [("taper", taper), ("lowpass", mkfilter("lowpass")), ("highpass", mkfilter("highpass")),
                          ("bandpass", mkfilter("bandpass")), ("bandblock", mkfilter("bandblock")), ("smooth", smooth)]:
